@@ -41,6 +41,87 @@ Theorem C38_every_operation_forwarded_refuted : ~ C38_every_operation_forwarded_
 Proof. intros H. specialize (H [B"A"; B"0"; B"0"; B"1"; B"0"]). discriminate. Qed.
 Print Assumptions C38_every_operation_forwarded_refuted.
 
+(* ---- CopyObject: option forwarding, cell by cell ----
+   client_field a i = field i of the destination when CopyObject runs through the client
+   (s3client request headers -> server copyObjectHandler -> storage), direct_field a i = the same call made on
+   the storage.  a ranges over ALL source objects (any subset of the eight fields, tagged or not), both
+   metadata directives, any subset of fields in the options (opts.Metadata nil or not), both tagging
+   directives and every storage class. *)
+(* the storage's own table (metadatapart/copy.go): under REPLACE everything comes from the options, under
+   COPY from the source — except the website redirect location, which comes from the options always *)
+Theorem C38_copy_storage_semantics :
+  forall a i, In i [0; 1; 2; 3; 4; 5; 6; 7] ->
+    direct_field a i =
+    (if xa_rm a then (if xa_metanil a && negb (i =? 0) then VNone else opt_val a i)
+     else if i =? 6 then (if xa_metanil a then VNone else opt_val a 6)
+     else src_val a i).
+Proof.
+  intros a i Hin. unfold direct_field, storage_copy_field, direct_opts. cbn [co_rm co_ct co_meta].
+  destruct (xa_rm a).
+  - destruct (i =? 0) eqn:E0.
+    + apply N.eqb_eq in E0. subst i. now rewrite Bool.andb_false_r.
+    + rewrite Bool.andb_true_r. destruct (xa_metanil a); reflexivity.
+  - destruct (i =? 6); [destruct (xa_metanil a); reflexivity|reflexivity].
+Qed.
+Print Assumptions C38_copy_storage_semantics.
+
+(* forwarding table = storage semantics in every cell; the one deviation: an Expires given in a
+   non-canonical spelling is stored re-spelled (finding C38-expires-rewritten) *)
+Theorem C38_copy_field_forwarding :
+  forall a i, In i [0; 1; 2; 3; 4; 5; 6; 7] ->
+    client_field a i = direct_field a i \/
+    (i = 5 /\ xa_rm a = true /\ xa_metanil a = false /\ N.testbit (xa_omask a) 5 = true /\ N.testbit (xa_omask a) 8 = true /\
+     direct_field a i = VAltRaw /\ client_field a i = VAltCanon).
+Proof.
+  intros a i Hin. pose proof (copy_field_forwarding a i Hin) as H.
+  destruct (direct_field a i) eqn:E; cbn in H; auto.
+  right. destruct (direct_alt_only_expires a i E) as [-> [H1 [H2 [H3 H4]]]]. repeat split; auto.
+Qed.
+Print Assumptions C38_copy_field_forwarding.
+
+(* storage class: always forwarded.  Tags: the client sends no tagging directive, the destination always gets
+   the source's tags; equal to the storage exactly under the COPY tagging directive *)
+Theorem C38_copy_class_and_tags_forwarding :
+  forall a, client_cls a = direct_cls a /\ client_tags a = (if xa_stags a then VSrc else VNone) /\
+            (xa_rt a = false -> client_tags a = direct_tags a).
+Proof. intros a. repeat split. intros H. unfold direct_tags, storage_copy_tags, direct_opts. cbn. now rewrite H. Qed.
+Print Assumptions C38_copy_class_and_tags_forwarding.
+Definition C38_copy_tags_forwarded_full : Prop := forall a, client_tags a = direct_tags a.
+Theorem C38_copy_tags_forwarded_refuted : ~ C38_copy_tags_forwarded_full.
+Proof. intros H. specialize (H (mkCXA false 0 false false 0 true true true 0)). discriminate. Qed.
+Print Assumptions C38_copy_tags_forwarded_refuted.
+
+(* ---- CompleteMultipartUpload manifests ---- *)
+(* client and server pass the manifest on entry by entry: through the client = on the storage *)
+Theorem C38_manifest_forwarded : forall up man, through_client_complete up man = storage_complete up man.
+Proof. reflexivity. Qed.
+Print Assumptions C38_manifest_forwarded.
+(* the storage completes exactly: part numbers 1..n uploaded and (no manifest, or the manifest lists exactly
+   1..n in ascending order without a wrong ETag); anything else (1,3,2 / 3,2,1, duplicates, gaps, unknown
+   parts, wrong ETag) is refused *)
+Theorem C38_manifest_accepted_iff :
+  forall up man, storage_complete up man = MROk <->
+    exists n, nparts up = Some n /\
+      (man = [] \/ (map fst man = seqN 1 (N.to_nat n) /\ Forall (fun pe => snd pe <> 1) man)).
+Proof.
+  intros up man. unfold storage_complete. destruct (nparts up) as [n|].
+  - destruct man as [|pe r].
+    + split; [intros _; exists n; auto|reflexivity].
+    + rewrite (validate_ok n (pe :: r) 0 0) by lia. replace (n - 0) with n by lia. cbn [N.add].
+      split.
+      * intros [_ [H1 H2]]. exists n. split; auto.
+      * intros [n' [Hn [Hnil|[H1 H2]]]]; [discriminate|]. inversion Hn. subst n'. auto.
+  - split; [discriminate|]. intros [n [H _]]. discriminate.
+Qed.
+Print Assumptions C38_manifest_accepted_iff.
+(* out-of-order manifests are refused with InvalidPartOrder (witnesses 1,3,2 and 3,2,1 over parts 1..3) *)
+Example C38_manifest_examples :
+  storage_complete 7 [(1, 0); (3, 0); (2, 0)] = MROrder /\ storage_complete 7 [(3, 0); (2, 0); (1, 0)] = MROrder /\
+  storage_complete 7 [(1, 0); (2, 0); (2, 0); (3, 0)] = MROrder /\ storage_complete 7 [(1, 0); (3, 0)] = MRPart /\
+  storage_complete 7 [(1, 0); (2, 1); (3, 0)] = MRPart /\ storage_complete 7 [(1, 0); (2, 0); (3, 0)] = MROk /\
+  storage_complete 5 [] = MRSeq.
+Proof. repeat split; reflexivity. Qed.
+
 (* ---- percent encodings: what the client escapes the server's decoder gives back ---- *)
 Theorem C38_escape_roundtrip :
   forall (p : byte -> bool) (plus : bool),
@@ -105,6 +186,10 @@ Example C38_example_copy_source :
   copy_source B"src-bucket" B"dir/b c%" = B"src-bucket/dir%2Fb%20c%25".
 Proof. reflexivity. Qed.
 Example C38_example_tagging : query_escape B"a b&c=d+e" = B"a+b%26c%3Dd%2Be".
+Proof. reflexivity. Qed.
+Example C38_example_cross :
+  run_line B"H CX,0,0,0,1,255,1,2,0,255,0,1,1,3 CX,0,0,0,1,255,1,0,1,289,0,0,0,0 CX,0,2,0,2,1,0,0,0,0,1,0,0,0 MFX,0,0,7,1:0/3:0/2:0,0,1 MFX,0,1,3,1:0/2:0,2,0"
+  = B"I:SSSSSSOSS3 I:O----A--S0 I:E I:InvalidPartOrder:old:open I:ok:new:closed".
 Proof. reflexivity. Qed.
 Example C38_example_run : run_line B"H P,0,0,1,0,0,0,0,0 A,0,0,1,0 C,0,0,0,1,0,0,0,0,0,0,2,0,0 T,1,0,2,1,0 T,1,0,2,0,0 ZZ" = B"I NI NI NI I BadOp".
 Proof. reflexivity. Qed.
